@@ -83,7 +83,7 @@ E_GATE = 1e-7
 E_TOL = 1e-7                      # relative to max(1, |x|) (k, h, l are O(1))
 E_TOL_Y_FACTOR = 10.0             # radial functions at the mantle base / surface (pristine Takeuchi-vs-Kamata up to 4e-8)
 E_TOL_INC_FACTOR = 10.0           # Kamata dynamic-incompressible is ill-conditioned at w~2 = 1e-6 (pristine r0-drift up to 4e-8)
-E_UNDERFLOW = 1e-15               # starts with (r0/R)^l below this are inadmissible by conditioning (below the absolute tolerance)
+E_UNDERFLOW = 1e-15               # Takeuchi starts (not normalised) with (r0/R)^l below this are inadmissible by conditioning
 E_GATE_FACTOR = 10.0
 E_MAX_STEPS = 200000
 E_WALL_BUDGET_S = 30.0
@@ -417,7 +417,7 @@ def e_solve(c, p, fam, r0f):
     from mc import rs
     kam, st, inc = FAMILIES[fam]
     out = []
-    if r0f ** c['l'] < E_UNDERFLOW:
+    if (not kam) and r0f ** c['l'] < E_UNDERFLOW:
         return 'start-underflow', None, None, None
     for div in (1.0, 100.0):
         arrs, bulk, tops, nl, ncore = e_planet(c, p, r0f)
